@@ -30,6 +30,15 @@ def seq_families(tier):
                       ("take", dict(n=1)), ("take", dict(n=2)), ("skip", dict(n=1))):
         nm = kind + (str(par["n"]) if "n" in par else "")
         F[nm + "_re"] = (scen.with_bounds(scen.unary(kind, mode="push", **par), kind, **re), None)
+    # sinks that act twice in one handler (e.g. Pull, then Terminate)
+    r2 = dict(maxData=2, maxTop=2 if q else 3, maxPull=2, allowFail=False, maxReact=2)
+    for kind, par in (("take", dict(n=2)), ("filter", dict(p="even")), ("skip", dict(n=1))):
+        nm = kind + (str(par["n"]) if "n" in par else "")
+        F[nm + "_r2"] = (scen.with_bounds(scen.unary(kind, **par), kind, **r2), None)
+    F["merge2_r2"] = (scen.with_bounds(scen.nary("merge", 2), "merge", maxData=1, maxTop=2, maxPull=1, allowFail=False,
+                                       maxReact=2), None)
+    F["concat2_r2"] = (scen.with_bounds(scen.nary("concat", 2), "concat", maxData=1, maxTop=2, maxPull=1, allowFail=False,
+                                        maxReact=2), None)
     nre = dict(maxData=2, maxTop=2, maxPull=0, allowFail=False, reentrant=True)
     for kind in ("merge", "concat", "combine"):
         F[kind + "2_re"] = (scen.with_bounds(scen.nary(kind, 2, mode="push"), kind, **nre), None)
@@ -121,6 +130,8 @@ def plan(prop, tier):
                  scen.with_bounds(from_iter_g([1, 2, 3, 4, 5, 6]), "from_iter", maxTop=8, maxPull=9, sinkErr=True)),
                 ("fromiter_serr", [scen.with_bounds(from_iter_g(xs), "from_iter", maxTop=3, maxPull=3, sinkErr=True)
                                    for xs in lens], None),
+                ("fromiter_r2", [scen.with_bounds(from_iter_g(xs), "from_iter", maxTop=3 if q else 4, maxPull=4,
+                                                  maxReact=2) for xs in ([1, 2], [1, 2, 3], None)], None),
                 ("fromiter_2sinks", [scen.with_bounds(from_iter_g(xs), "from_iter", sinks=["probe", "probe"],
                                                       maxTop=4 if q else 5, maxPull=2) for xs in ([1], [1, 2], None)], None)]
         return fams
@@ -194,6 +205,15 @@ def plan(prop, tier):
         fams.append(("fromiter_2s", [scen.with_bounds(from_iter_g(xs), "from_iter", maxTop=5 if q else 6, maxPull=3, **two)
                                      for xs in ([1, 2], None)],
                      scen.with_bounds(from_iter_g([1, 2, 3, 4]), "from_iter", maxTop=10, maxPull=6, sinkErr=True, **two)))
+        # overlapping subscriptions: one sink makes the other act from inside its own handler
+        xb = dict(maxData=1, maxTop=4, maxPull=1, allowFail=False, burst=False, cross=True)
+        for kind, par in (("scan", dict(r="lin", seed=5)), ("take", dict(n=1)), ("filter", dict(p="even"))):
+            fams.append((kind + "_2sx", scen.with_bounds(scen.unary(kind, **par), kind, **two, **xb), None))
+        for kind in ("merge", "concat", "combine"):
+            fams.append((kind + "2_2sx", scen.with_bounds(scen.nary(kind, 2), kind, **two,
+                                                         **dict(xb, maxPull=0 if q else 1)), None))
+        fams.append(("fromiter_2sx", [scen.with_bounds(from_iter_g(xs), "from_iter", maxTop=4 if q else 5, maxPull=2,
+                                                       cross=True, **two) for xs in ([1, 2], None)], None))
         g = {"nodes": [{"id": 1, "kind": "interval", "period": 2}], "root": 1}
         fams.append(("interval_2s", scen.with_bounds(g, "interval", maxTop=6 if q else 7, maxPull=0, allowFail=False, **two),
                      scen.with_bounds(g, "interval", maxTop=12, maxPull=0, allowFail=True, **two)))
